@@ -222,10 +222,13 @@ def run_output_sxr(key):
 def run_input_sxr(key):
     _, sx = _ev()
     K, D, kind, T, seed = key['K'], key['D'], key['kind'], key['T'], key['seed']
-    img = signals(seed, kind if kind != 'clean' else 'generic', (K, D, T), 'in-img') * (1 + np.arange(K))[:, None, None]
+    img = signals(seed, kind if kind not in ('clean', 'dominant') else 'generic', (K, D, T), 'in-img') * (1 + np.arange(K))[:, None, None]
     if kind == 'clean':
         img[1:] *= 2e-3                               # one dominant source: SIR ~ 55 dB
-    noise = signals(seed, kind if kind != 'clean' else 'generic', (D, T), 'in-noise') * (0.5 if kind != 'clean' else 3e-3)
+    if kind == 'dominant':
+        # amplitude ratio of 1e6 between the strongest and the weakest source (scales 1e3 ... 1e-3)
+        img = signals(seed, 'generic', (K, D, T), 'in-img') * (10.0 ** np.linspace(3.0, -3.0, K))[:, None, None]
+    noise = signals(seed, kind if kind not in ('clean', 'dominant') else 'generic', (D, T), 'in-noise') * (0.5 if kind != 'clean' else 3e-3)
     if kind == 'integer':
         noise = signals(seed, kind, (D, T), 'in-noise')
         if not noise.any():
@@ -307,6 +310,17 @@ def run_snr(key):
     got = sx.get_snr(X3, N3, axis=axis)
     if not same_value(got, np.full(np.shape(got), target), 1e-9):
         return viol(f'get_snr after set_snr(inplace=False) = {np.asarray(got).tolist()}')
+    # target and noise of different sizes along the reduced axes (noise longer than the target, more channels)
+    if axis is None or axis == -1 or axis == len(shape) - 1:
+        Nl = signals(seed, 'generic', tuple(shape[:-1]) + (3 * shape[-1] + 1,), 'snrNlong') * 2
+        try:
+            X4, N4 = sx.set_snr(X, Nl, target, axis=axis, inplace=False)
+        except Exception as e:  # noqa
+            return viol(f'set_snr raised {e!r} for a noise signal longer than the target')
+        got = sx.get_snr(X4, N4, axis=axis)
+        if not same_value(got, np.full(np.shape(got), target), 1e-9):
+            return viol(f'get_snr after set_snr with a longer noise signal = {np.asarray(got).tolist()} '
+                        f'(requested {target})')
     return ok(outcome=f'{target}:{axis}')
 
 
@@ -353,8 +367,10 @@ def subchecks(tier, seed):
         for seed in seeds_:
             for K in (1, 2, 3, 4):
                 for D in (1, 2, 3, 5):
-                    for kind in ('integer', 'generic', 'clean'):
+                    for kind in ('integer', 'generic', 'clean', 'dominant'):
                         for T in (8, 64):
+                            if kind == 'dominant' and K == 1:
+                                continue
                             yield (K, D, kind, T, 'C', seed)
                             if kind == 'generic' and T == 8:
                                 for lay in A.LAYOUTS[1:]:
